@@ -16,6 +16,7 @@ from .utils import (
 from ..tokenizer import Token, Tokenizer, TokenType
 from ..datapack import DataPack
 from ..exception import JMCSyntaxException
+from ..utils import clean_up_paren_token
 
 
 def if_(
@@ -804,7 +805,7 @@ def async_(
                 suggestion="Example: `1s`, `1t`, `1d`",
             )
 
-        if command[2].string[1:-1].strip() == "true":
+        if clean_up_paren_token(command[2], tokenizer)[1:-1] == "true":
             condition = "true"
             precommand = ""
         else:
